@@ -241,6 +241,49 @@ def nontrivial(case, impl):
     return None
 
 
+def schedule_cases(tier):
+    """every schedule of the given length over m threads (one entry = one step: check, record or exit), parameters cycled"""
+    import itertools
+    shapes = ((2, 6), (3, 7)) if tier == "quick" else ((2, 9), (3, 9), (4, 8))
+    params = [(N, base, pat) for N in (1, 2, 3) for base in (0, 1) for pat in ("ones", "zero", "two")]
+    cases, k = [], 0
+    for m, L in shapes:
+        for sch in itertools.product(range(m), repeat=L):
+            N, base, pat = params[k % len(params)]
+            k += 1
+            bs = [1] * m
+            if pat == "zero":
+                bs[k % m] = 0
+            elif pat == "two":
+                bs[k % m] = 2
+            ops = [f"load a:{N}"]
+            if base:
+                ops.append("entry 1 a 1")
+            ops += [f"sched 10 a {','.join(map(str, bs))} {','.join(map(str, sch))}", "conc a", "exit 10", "conc a", "entry 99 a 1", "conc a"]
+            cases.append(Case(f"s{m}-{k}", ops, tags=("schedule", f"m={m}", pat)))
+    return cases
+
+
+def run(ctx):
+    from vlib import std
+    import sys
+
+    def extra(ctx, eng):
+        cs = schedule_cases(ctx.tier)
+        for i in range(0, len(cs), 4000):
+            if ctx.violations:
+                break
+            eng.check(cs[i:i + 4000], "schedules")
+        ctx.cov["schedules_enumerated"] = len(cs)
+        ctx.log(f"{len(cs)} exhaustive schedules compared")
+
+    ctx.assumptions.append("fewer than 2^31 entries in flight per resource: the gauge is an int32 in core/stat/base_node.go and an integer in the model "
+                           "(hypothesis histSize h < 2^31 of the history theorems)")
+    ctx.assumptions.append("isolation.checkPass is one atomic step of the small-step model: the only yield point of the admission path is "
+                           "chain.between-check-and-stat, after the whole rule loop")
+    return std.run(ctx, sys.modules[__name__], extra=extra)
+
+
 META = {
     "technique": "Lean 4 proof (refinement gauge machine = history-recomputing reference, invariants by induction over histories and schedules) "
                  "+ differential correspondence model/impl through api.Entry incl. deterministic schedules at the chain yield hook",
